@@ -299,7 +299,8 @@ package operator
 // What is still to do agrees with the requested placement, and every peer that is not the subject of a pending change
 // already has its requested role (established by prepareBuild - assumed, see below - and kept by every exec step).
 //@ pure pendingRole(m peersMap, t peersMap) = forall s uint64 :: {in(m, s)} in(m, s) ==> in(t, s) && t[s] != nil && m[s].Role == t[s].Role
-//@ pure settled(b *Builder) = b.targetPeers != nil && pendingRole(b.toAdd, b.targetPeers) && pendingRole(b.toPromote, b.targetPeers) && pendingRole(b.toDemote, b.targetPeers) && (forall s uint64 :: {in(b.currentPeers, s)} in(b.currentPeers, s) && !in(b.toAdd, s) && !in(b.toRemove, s) && !in(b.toPromote, s) && !in(b.toDemote, s) ==> in(b.targetPeers, s) && b.targetPeers[s] != nil && b.currentPeers[s].Role == b.targetPeers[s].Role)
+//@ pure agree(c *metapb.Peer, t *metapb.Peer) = c.Role == t.Role || (c.Role == 0 && t.Role != 1)
+//@ pure settled(b *Builder) = b.targetPeers != nil && pendingRole(b.toAdd, b.targetPeers) && pendingRole(b.toPromote, b.targetPeers) && pendingRole(b.toDemote, b.targetPeers) && (forall s uint64 :: {in(b.currentPeers, s)} in(b.currentPeers, s) && !in(b.toAdd, s) && !in(b.toRemove, s) && !in(b.toPromote, s) && !in(b.toDemote, s) ==> in(b.targetPeers, s) && b.targetPeers[s] != nil && agree(b.currentPeers[s], b.targetPeers[s]))
 // A store with a pending promotion still holds its learner (so it is not yet a leader candidate) and is not scheduled for
 // removal; what a pending demotion installs is a learner.
 //@ pure promoteOK(b *Builder) = (forall s uint64 :: {in(b.toPromote, s)} in(b.toPromote, s) ==> in(b.currentPeers, s) && b.currentPeers[s].Role == 1 && !in(b.toRemove, s)) && (forall s uint64 :: {in(b.toDemote, s)} in(b.toDemote, s) ==> b.toDemote[s].Role == 1)
@@ -324,7 +325,7 @@ package operator
 //@   loop 1 invariant bInv(b) && settled(b) && promoteOK(b) && wfPM(b.targetPeers) && b.targetPeers != b.currentPeers && b.targetPeers != b.toAdd && b.targetPeers != b.toRemove && b.targetPeers != b.toPromote && b.targetPeers != b.toDemote && b.cluster != nil && (b.targetLeaderStoreID != 0 ==> in(b.targetPeers, b.targetLeaderStoreID) && leaderRole(b.targetPeers[b.targetLeaderStoreID]))
 //@   at setTargetLeaderIfNotExist 1 assert [nothing-pending] forall s uint64 :: {in(b.currentPeers, s)} !in(b.toAdd, s) && !in(b.toRemove, s) && !in(b.toPromote, s) && !in(b.toDemote, s)
 //@   at setTargetLeaderIfNotExist 1 after assert [target-leader-is-a-requested-voter] b.targetLeaderStoreID != 0 ==> in(b.targetPeers, b.targetLeaderStoreID) && leaderRole(b.targetPeers[b.targetLeaderStoreID])
-//@   at setTargetLeaderIfNotExist 1 after assert [every-peer-has-its-requested-role] forall s uint64 :: {in(b.currentPeers, s)} in(b.currentPeers, s) ==> in(b.targetPeers, s) && b.currentPeers[s].Role == b.targetPeers[s].Role
+//@   at setTargetLeaderIfNotExist 1 after assert [every-peer-has-its-requested-role] forall s uint64 :: {in(b.currentPeers, s)} in(b.currentPeers, s) ==> in(b.targetPeers, s) && agree(b.currentPeers[s], b.targetPeers[s])
 //@   loop 1 modifies b.steps, b.currentLeaderStoreID, b.currentPeers[*], b.toAdd[*], b.toRemove[*], b.toPromote[*], b.toDemote[*], b.peerAddStep[*], b.stepPlanPreferFuncs, ghost evres
 //@   modifies *
 
@@ -347,16 +348,37 @@ package operator
 //@ pure demoteSrc(b *Builder) = forall s uint64 :: {in(b.toDemote, s)} in(b.toDemote, s) ==> b.toDemote[s].Role == 1
 //@ pure workMaps(b *Builder) = wfPM(b.toAdd) && wfPM(b.toRemove) && wfPM(b.toPromote) && wfPM(b.toDemote) && removeSrc(b) && promoteSrc(b) && demoteSrc(b) && pendingRole(b.toAdd, b.targetPeers) && pendingRole(b.toPromote, b.targetPeers) && pendingRole(b.toDemote, b.targetPeers)
 //@ pure freshMaps(b *Builder) = b.toAdd != b.toRemove && b.toAdd != b.toPromote && b.toAdd != b.toDemote && b.toRemove != b.toPromote && b.toRemove != b.toDemote && b.toPromote != b.toDemote && b.originPeers != b.toAdd && b.originPeers != b.toRemove && b.originPeers != b.toPromote && b.originPeers != b.toDemote && b.targetPeers != b.toAdd && b.targetPeers != b.toRemove && b.targetPeers != b.toPromote && b.targetPeers != b.toDemote
+// The origin region is not in a joint state (NewBuilder refuses such regions unless told otherwise): roles are Voter or Learner.
+//@ pure plainRoles(m peersMap) = forall s uint64 :: {in(m, s)} in(m, s) ==> m[s].Role == 0 || m[s].Role == 1
+// Every origin peer that is in no work map already has (a role that agrees with) its requested role.
+//@ pure originSettled(b *Builder) = forall s uint64 :: {in(b.originPeers, s)} in(b.originPeers, s) && !in(b.toRemove, s) && !in(b.toPromote, s) && !in(b.toDemote, s) ==> in(b.targetPeers, s) && b.targetPeers[s] != nil && agree(b.originPeers[s], b.targetPeers[s])
 //@ func (*Builder).prepareBuild
 //@   props C08
-//@   requires b != nil && b.cluster != nil && wfPM(b.originPeers) && wfPM(b.targetPeers) && allocated(b.originPeers) && allocated(b.targetPeers)
+//@   requires b != nil && b.cluster != nil && wfPM(b.originPeers) && wfPM(b.targetPeers) && allocated(b.originPeers) && allocated(b.targetPeers) && plainRoles(b.originPeers)
 //@   ensures [work-maps-well-formed-and-distinct] r1 == nil ==> bInv(b) && wfPM(b.targetPeers) && b.targetPeers != b.currentPeers && b.targetPeers != b.toAdd && b.targetPeers != b.toRemove && b.targetPeers != b.toPromote && b.targetPeers != b.toDemote
 //@   ensures [pending-changes-carry-the-requested-role] r1 == nil ==> pendingRole(b.toAdd, b.targetPeers) && pendingRole(b.toPromote, b.targetPeers) && pendingRole(b.toDemote, b.targetPeers)
+//@   ensures [same-cluster-view] b.cluster == old(b.cluster)
 //@   ensures [promotions-sit-on-learners] r1 == nil ==> promoteOK(b)
+//@   ensures [every-origin-peer-diffed] r1 == nil ==> settled(b)
 //@   ensures [target-leader-may-lead] r1 == nil ==> (b.targetLeaderStoreID != 0 ==> in(b.targetPeers, b.targetLeaderStoreID) && leaderRole(b.targetPeers[b.targetLeaderStoreID]))
 //@   loop 1 invariant workMaps(b) && freshMaps(b) && wfPM(b.originPeers) && wfPM(b.targetPeers)
 //@   loop 2 invariant workMaps(b) && freshMaps(b) && wfPM(b.originPeers) && wfPM(b.targetPeers)
+//@   loop 2 invariant [diffed-so-far] forall s uint64 :: {visited(b.originPeers, s)} visited(b.originPeers, s) && in(b.originPeers, s) && !in(b.toRemove, s) && !in(b.toPromote, s) && !in(b.toDemote, s) ==> in(b.targetPeers, s) && b.targetPeers[s] != nil && agree(b.originPeers[s], b.targetPeers[s])
 //@   loop 2 modifies b.toRemove[*], b.toPromote[*], b.toDemote[*]
-//@   loop 3 invariant workMaps(b) && freshMaps(b) && wfPM(b.originPeers) && wfPM(b.targetPeers)
+//@   loop 3 invariant workMaps(b) && freshMaps(b) && wfPM(b.originPeers) && wfPM(b.targetPeers) && originSettled(b)
 //@   loop 3 modifies b.toAdd[*], ghost evres, ghost evcount
+//@   modifies *
+
+// Build's glue: whatever prepareBuild leaves behind is what the step loop needs (every clause of the step loop's
+// precondition is discharged from prepareBuild's postconditions at the call site).  The joint-consensus path and the
+// construction of the Operator value are surroundings with arbitrary effects (not covered).
+//@ func (*Builder).buildStepsWithJointConsensus
+//@   assumed
+//@   modifies *
+//@ func NewOperator
+//@   assumed
+//@   modifies nothing
+//@ func (*Builder).Build
+//@   props C08
+//@   requires b != nil && b.cluster != nil && wfPM(b.originPeers) && wfPM(b.targetPeers) && allocated(b.originPeers) && allocated(b.targetPeers) && plainRoles(b.originPeers)
 //@   modifies *
